@@ -70,6 +70,15 @@ def scenarios(tier):
     L.append((SC.scn("make-parent-takes-the-handed-back-token-n1", mw,
                      [{"name": "T0", "argv": ["redo", "--no-log", "x"], "env": {"MAKEFLAGS": ""}}, {"name": "T1", "argv": ["redo-ifchange", "b"]}],
                      visible=VIS, jobserver=1, limit=2, log_mode=True, no_cheatfds=True, make_player=1), 1 if q else 2))
+    # the same, and then the build FAILS (b's script fails after its sub-redo left on a borrowed slot): the settling with the
+    # make parent must not depend on the outcome
+    mwf = World("make-one-job-fails", {"s": ["0", "1"], "flag": ["1", "0"]},
+                {"x.do": [S(deps=["s"], sync=(("start", "set", "x-started"), ("mid", "wait", "b-started")))],
+                 "b.do": [S(deps=["x"], fail="flag", sync=(("start", "wait", "x-started"), ("start", "set", "b-started")))]},
+                ["x", "b"], ["b"])
+    L.append((SC.scn("make-parent-takes-the-handed-back-token-then-failure-n1", mwf,
+                     [{"name": "T0", "argv": ["redo", "--no-log", "x"], "env": {"MAKEFLAGS": ""}}, {"name": "T1", "argv": ["redo-ifchange", "b"]}],
+                     visible=VIS, jobserver=1, limit=2, log_mode=True, no_cheatfds=True, make_player=1, may_fail=True), 1 if q else 2))
     L.append((SC.scn("make-failshared-n2", w["failshared"], ["redo-ifchange a b"], visible=VIS, jobserver=2, limit=2, may_fail=True,
                      no_cheatfds=True, make_player=1), 1 if q else 2))
     L.append((SC.scn("make-log-failshared-n2", w["failshared"], ["redo-ifchange a b"], visible=VIS, jobserver=2, limit=2, may_fail=True,
